@@ -328,6 +328,16 @@ func TestVerifC19(t *testing.T) {
 				cfg.ID = nil
 			}
 		}
+		if !fax && !updated && c.Index%4 == 1 {
+			// long unfiltered streams that end in an end-of-line marker, on a sink
+			// which cannot seek: /Length is an indirect object behind the stream
+			cfg.LongBodyLen = 1024 + c.Rng.Intn(600)
+			cfg.LongBodyEOL = true
+			cfg.NoFilters = true
+			cfg.Seekable = false
+			cfg.MaxOps = 1 + c.Rng.Intn(3)
+			c.R.Count("documents_with_long_streams_ending_in_EOL", 1)
+		}
 		if updated {
 			// a file with an incremental update: the last two startxref keywords
 			// are close to each other (classic cross-reference tables, no encryption)
